@@ -186,6 +186,128 @@ def fam_parsed(arg):
     return acc.result()
 
 
+# ---------------------------------------------------------------- two definitions of one function name
+
+F2_BODIES = [(), (0,), (1,), (2,), (9,), (10,), (0, 10), (2, 10), (7, 3)]
+F2_TOKENS = ('F1', 'F2', 'call', 'log', 'retx')
+
+
+def build_f2(case):
+    b1, b2 = F2_BODIES[case['b1']], F2_BODIES[case['b2']]
+    sts = []
+    for t in case['seq']:
+        tok = F2_TOKENS[t]
+        if tok == 'F1':
+            sts.append({'function': {'name': 'ff', 'statements': [copy.deepcopy(jm.P[i]) for i in b1]}})
+        elif tok == 'F2':
+            sts.append({'function': {'name': 'ff', 'statements': [copy.deepcopy(jm.P[i]) for i in b2]}})
+        elif tok == 'call':
+            sts.append(copy.deepcopy(jm.P[jm.CALL_FF]))
+        elif tok == 'log':
+            sts.append(copy.deepcopy(jm.P[0]))
+        else:
+            sts.append(copy.deepcopy(jm.P[10]))
+    return {'statements': sts}
+
+
+def check_f2(case, acc):
+    model = build_f2(case)
+    n = check_model(None, case, acc, model=model)
+    # the same model run twice against the SAME globals (a function statement re-binds the name each time)
+    from ..engine.tape import Tape  # pylint: disable=import-outside-toplevel
+    from ..common import canon  # pylint: disable=import-outside-toplevel
+    bs = load_impl()
+    logs_i, logs_r = [], []
+    glob_i = {'x': 0, 'cc': lambda args, options: False}
+    glob_r = {'x': 0}
+    m = jumpvm.Machine(glob_r, {'cc': lambda args: False}, logs_r, limit=HORIZON, lib=jumpvm.lib_basic())
+    for rnd, mod in enumerate((model, build_f2(dict(case, b1=case['b2'], b2=case['b1'])))):
+        try:
+            ri = ('ok', canon(bs.execute_script(mod, {'globals': glob_i, 'logFn': logs_i.append, 'maxStatements': HORIZON})))
+        except bs.BareScriptRuntimeError as exc:
+            ri = ('raise', str(exc))
+        try:
+            m.count = 0
+            rr = ('ok', canon(m.run(copy.deepcopy(mod)['statements'], None)))
+        except jumpvm.RefRuntimeError as exc:
+            rr = ('raise', str(exc))
+        acc.evals += 1
+        acc.states += 1
+        acc.transitions += 1
+        acc.traces += 1
+        if ri != rr or logs_i != logs_r or canon(glob_i.get('x')) != canon(glob_r.get('x')):
+            acc.violation(dict(case, round=rnd), {'result': rr, 'logs': logs_r}, {'result': ri, 'logs': logs_i}, 'second model on the same globals: differs from the reference machine')
+            break
+    return n
+
+
+def fam_f2(arg):
+    acc = Acc('function2')
+    for b1, b2 in arg:
+        for length in range(2, 5):
+            for seq in itertools.product(range(len(F2_TOKENS)), repeat=length):
+                if 0 not in seq or 1 not in seq:
+                    continue
+                acc.cases += 1
+                check_f2({'b1': b1, 'b2': b2, 'seq': list(seq)}, acc)
+                acc.nontrivial += 1
+        acc.sample({'b1': [jm.P_NAMES[i] for i in F2_BODIES[b1]], 'b2': [jm.P_NAMES[i] for i in F2_BODIES[b2]], 'seq': ['F1', 'call', 'F2', 'call']})
+    return acc.result()
+
+
+def f2_count():
+    nt = len(F2_TOKENS)
+    per = 0
+    for length in range(2, 5):
+        per += sum(1 for seq in itertools.product(range(nt), repeat=length) if 0 in seq and 1 in seq)
+    return per
+
+
+# ---------------------------------------------------------------- jump conditions of every value type
+
+def cond_pool():
+    from . import C01  # pylint: disable=import-outside-toplevel
+    return C01.truth_pool()
+
+
+COND_SHAPES = ('jumpif v', 'jumpif !v', 'jumpif v && 1', 'jumpif v || 0', 'backward jumpif v once')
+
+
+def build_cond(shape):
+    gv = {'variable': 'gv'}
+    if shape == 0:
+        e = gv
+    elif shape == 1:
+        e = {'unary': {'op': '!', 'expr': gv}}
+    elif shape == 2:
+        e = {'binary': {'op': '&&', 'left': gv, 'right': {'number': 1}}}
+    elif shape == 3:
+        e = {'binary': {'op': '||', 'left': gv, 'right': {'number': 0}}}
+    else:
+        return {'statements': [copy.deepcopy(jm.P[7]), copy.deepcopy(jm.P[2]), copy.deepcopy(jm.P[0]),
+                               {'jump': {'label': 'A', 'expr': {'binary': {'op': '&&', 'left': {'binary': {'op': '<', 'left': {'variable': 'x'}, 'right': {'number': 2}}}, 'right': gv}}}},
+                               copy.deepcopy(jm.P[10])]}
+    return {'statements': [{'jump': {'label': 'A', 'expr': e}}, copy.deepcopy(jm.P[0]), copy.deepcopy(jm.P[7]), copy.deepcopy(jm.P[1]), copy.deepcopy(jm.P[10])]}
+
+
+def check_cond(case, acc):
+    label, value = cond_pool()[case['i']]
+    model = build_cond(case['shape'])
+    n = check_model(None, dict(case, value=label, shape_name=COND_SHAPES[case['shape']]), acc, model=model, presets={'gv': value})
+    acc.nontrivial += 1
+    return n
+
+
+def fam_cond(arg):
+    acc = Acc('conditions')
+    for i in arg:
+        for shape in range(len(COND_SHAPES)):
+            acc.cases += 1
+            check_cond({'i': i, 'shape': shape}, acc)
+        acc.sample({'value': cond_pool()[i][0], 'shapes': list(COND_SHAPES)})
+    return acc.result()
+
+
 def families(tier):
     load_impl()
     maxlen = 5 if tier == 'quick' else 6
@@ -201,7 +323,13 @@ def families(tier):
             for block in split(list(range(nfn)), 1 if length < 3 else (7 if length == 3 else 19)):
                 fn_shards.append((length, pos, block))
     specs = list(parsed_specs())
+    nb = len(F2_BODIES)
+    pairs = [(a, b) for a in range(nb) for b in range(nb) if a != b]
+    npool = len(cond_pool())
     return [
+        Family('function2', fam_f2, split(pairs, 24), f'two function statements of the same name with different bodies ({nb} bodies, ordered pairs) in every sequence of length 2..4 over {{F1, F2, call, log, return x}} containing both; each also followed by a second model (definitions swapped) on the same globals',
+               expected=len(pairs) * f2_count()),
+        Family('conditions', fam_cond, [[i] for i in range(npool)], f'a value of each kind ({npool} values of all nine types incl. empty object/array/string, zeros) as jump condition: plain, negated, under && and ||, and in a backward jump', expected=npool * len(COND_SHAPES)),
         Family('plain', fam_plain, plain_shards, f'every statement list of length <= {maxlen} over the 12-statement alphabet; deviation bound {BOUND}; horizon {HORIZON}',
                expected=sum(jm.NP ** k for k in range(maxlen + 1))),
         Family('function', fam_fn, fn_shards, f'every list of length <= {fnlen} with one function variant (133 bodies) at any position, other positions over the alphabet',
@@ -211,7 +339,7 @@ def families(tier):
     ]
 
 
-_CHECKS = {'plain': check_plain, 'function': check_fn, 'parsed': check_parsed}
+_CHECKS = {'plain': check_plain, 'function': check_fn, 'parsed': check_parsed, 'function2': check_f2, 'conditions': check_cond}
 
 
 def replay(family, case):
